@@ -95,7 +95,8 @@ theorem core_cbCall (c : Ctx) (cb : Cb) (n : Node) (s : St) (obs : List Obs) (fr
     (nodeFinish c s obs d n below).1.core = s.core := by
   simp [nodeFinish]
 
-@[simp] theorem core_recSpawn (s : St) (d : DagRef) (n : Node) (v : Val) : (recSpawn s d n v).core = s.core := by
+@[simp] theorem core_recSpawn (P : Program) (s : St) (d : DagRef) (n : Node) (v : Val) :
+    (recSpawn P s d n v).core = s.core := by
   unfold recSpawn; split <;> simp
 
 @[simp] theorem core_storeIf (s : St) (b : Bool) (n : Node) (v : Val) : (storeIf s b n v).core = s.core := by
@@ -170,29 +171,6 @@ open MLPE
 @[simp] theorem core_oneofWin (c : Ctx) (s : St) (obs : List Obs) (head cand : Node) (below : List Frame) :
     (oneofWin c s obs head cand below).1.core = s.core := by
   simp [oneofWin]
-
-@[simp] theorem core_oneofTry (c : Ctx) (d : DagRef) (head : Node) (below : List Frame) (s : St) (obs : List Obs)
-    (cands : List Node) : (oneofTry c d head below s obs cands).1.core = s.core := by
-  induction cands generalizing s obs with
-  | nil =>
-    simp only [oneofTry]
-    split <;> simp
-  | cons cand rest ih =>
-    simp only [oneofTry]
-    split
-    · simp
-    · split
-      · split
-        · rw [ih]; simp
-        · simp
-      · simp
-
-@[simp] theorem core_oneofWake (c : Ctx) (s : St) (obs : List Obs) (d : DagRef) (head cand : Node) (rest : List Node)
-    (sub : DagRef) (below : List Frame) : (oneofWake c s obs d head cand rest sub below).1.core = s.core := by
-  unfold oneofWake
-  split
-  · split <;> simp
-  · simp
 
 @[simp] theorem core_recFinish (c : Ctx) (s : St) (obs : List Obs) (n start : Node) (below : List Frame) :
     (recFinish c s obs n start below).1.core = s.core := by
